@@ -104,6 +104,9 @@ func run(tapeJSON json.RawMessage, res *core.Result) {
 		password = tp.Password
 		res.Probes["password-outside-ascii"]++
 	}
+	if tp.Policy.ClockOffset != 0 {
+		res.Probes["kdc-clock-differs-from-the-clients"]++
+	}
 	if tp.Conf.EtypeSep != "" {
 		res.Probes["etype-lists-separated-by-commas-or-tabs"]++
 	}
@@ -147,7 +150,7 @@ func run(tapeJSON json.RawMessage, res *core.Result) {
 	prev := sim
 	for i := 1; i <= tp.Chain; i++ {
 		realm := fmt.Sprintf("R%d.TEST", i)
-		k := refkdc.New(realm, tp.RunSeed+uint64(i), refkdc.Policy{CopyAddresses: true, OmitStartTime: tp.Policy.OmitStartTime, MaxLifeS: tp.Policy.MaxLifeS, LenientAuthCRealm: tp.Policy.LenientAuthCRealm})
+		k := refkdc.New(realm, tp.RunSeed+uint64(i), refkdc.Policy{CopyAddresses: true, OmitStartTime: tp.Policy.OmitStartTime, MaxLifeS: tp.Policy.MaxLifeS, LenientAuthCRealm: tp.Policy.LenientAuthCRealm, ClockOffset: tp.Policy.ClockOffset, ExpiryGraceS: tp.Policy.ExpiryGraceS})
 		addr := fmt.Sprintf("10.0.%d.1:88", i)
 		gk.Wire(net, k, []string{addr}, nil)
 		kdcs[realm] = k
@@ -764,6 +767,18 @@ func run(tapeJSON json.RawMessage, res *core.Result) {
 				// chains up to 5 referrals lie inside any reasonable bound and must be followed to
 				// their end; longer ones and cycles may be cut off (the library's bound is not mirrored)
 				open := afterDestroy || r.Op == "cached" || (far && (tp.Chain > 5 || tp.Cycle))
+				// a TGT that was still valid when the client looked at it and had ended by the time the
+				// request reached a KDC without allowance for expired tickets: the instant of its end lies
+				// inside the operation
+				for _, is := range issues {
+					if strings.HasPrefix(is.SName, "krbtgt/") && at(is.At) <= r.Invoke {
+						// (by the client's clock it ends at End, by the KDC's at End minus the KDC's lead)
+						if at(is.End) >= r.Invoke && at(is.End)-int64(tp.Policy.ClockOffset) <= r.Return && strings.Contains(r.Err, "KRB_AP_ERR_TKT_EXPIRED") {
+							open = true
+							res.Stats["tgt_ended_while_the_request_was_under_way"]++
+						}
+					}
+				}
 				if tp.Cred == "ccache" {
 					// without credentials the TGT of the cache cannot be replaced: from the last sixth of
 					// its life on (where the library tries to refresh it) requests may fail
@@ -777,7 +792,7 @@ func run(tapeJSON json.RawMessage, res *core.Result) {
 							if lost {
 								continue
 							}
-							lastSixth = r.Return >= at(is.At)+int64(is.End.Sub(is.At))*5/6
+							lastSixth = r.Return >= at(is.End)-int64(is.End.Sub(is.AuthTime))/6 // as the library reckons: a sixth of the ticket's life before its end
 						}
 					}
 					open = open || lastSixth
@@ -805,8 +820,14 @@ func run(tapeJSON json.RawMessage, res *core.Result) {
 			if string(is.SessionKey.Value) != string(r.Key) || is.SessionKey.Etype != r.KeyType {
 				viol("returned.key-not-issued-with-ticket", map[string]interface{}{"op": r, "serial": is.Serial})
 			}
-			// valid at some instant of the call
-			if at(is.End) < r.Invoke || at(is.Start) > r.Return {
+			// valid at some instant of the call.  The times are the KDC's: a ticket issued by a KDC whose
+			// clock is ahead starts, by the client's clock, up to that much later (that is what the
+			// permitted skew is for; the end of the validity period is judged strictly)
+			startSlack := int64(0)
+			if tp.Policy.ClockOffset > 0 {
+				startSlack = int64(tp.Policy.ClockOffset)
+			}
+			if at(is.End) < r.Invoke || at(is.Start) > r.Return+startSlack {
 				viol("returned.not-valid-now", map[string]interface{}{"op": r, "start_ns": at(is.Start), "end_ns": at(is.End), "serial": is.Serial})
 			}
 			if nreq == 0 {
